@@ -33,6 +33,34 @@ def real_dtype(scalar_type: str):
     return np.dtype(_SCALARS[str(np.dtype(scalar_type))][1])
 
 
+class Timeout(Exception):
+    """A symbolic preprocessing / code generation step exceeded its wall-clock budget (case is inconclusive)."""
+
+
+import contextlib  # noqa: E402
+import signal  # noqa: E402
+import threading  # noqa: E402
+
+
+@contextlib.contextmanager
+def time_limit(seconds):
+    """Raise Timeout in the main thread after `seconds` (no-op elsewhere)."""
+    if threading.current_thread() is not threading.main_thread() or seconds <= 0:
+        yield
+        return
+
+    def handler(signum, frame):
+        raise Timeout(f"exceeded {seconds} s")
+
+    old = signal.signal(signal.SIGALRM, handler)
+    signal.setitimer(signal.ITIMER_REAL, seconds)
+    try:
+        yield
+    finally:
+        signal.setitimer(signal.ITIMER_REAL, 0)
+        signal.signal(signal.SIGALRM, old)
+
+
 class CompileError(Exception):
     def __init__(self, msg, stderr="", code=""):
         super().__init__(msg)
@@ -123,8 +151,9 @@ class Module:
 def compile_module(objects, options=None, workdir=None, name="m", cc="gcc", cflags=("-O1",), prefix="vf") -> Module:
     """Generate + compile + load.  Raises Rejected (Python exception in FFCx) or CompileError."""
     try:
-        header, source, names = generate_code(objects, options, prefix=prefix)
-    except KeyboardInterrupt:
+        with time_limit(float(os.environ.get("VF_CODEGEN_TIMEOUT", "150"))):
+            header, source, names = generate_code(objects, options, prefix=prefix)
+    except (KeyboardInterrupt, Timeout):
         raise
     except BaseException as e:  # noqa: BLE001 - classification is the point (UFL's ArityMismatch derives from BaseException)
         if type(e).__name__ in ("SystemExit", "GeneratorExit") or type(e).__module__.startswith("hypothesis"):
